@@ -3,6 +3,8 @@
 package generic
 
 import (
+	"reflect"
+
 	"github.com/ohler55/slip"
 )
 
@@ -88,8 +90,20 @@ top:
 	}
 	aux.moo.Lock()
 	defer aux.moo.Unlock()
+	comb := meth.Combinations[0]
+	if gmeth := aux.methods[string(key)]; gmeth == nil || len(gmeth.Combinations) == 0 || !holdsDaemons(gmeth.Combinations[0], comb) {
+		// The documentation of a table entry is the one of the first method
+		// defined with the specializers. For the default method of a built
+		// in generic function it describes the arguments and not the
+		// specializers so the entry is looked up by the method itself.
+		for k, m := range aux.methods {
+			if 0 < len(m.Combinations) && holdsDaemons(m.Combinations[0], comb) {
+				key = []byte(k)
+				break
+			}
+		}
+	}
 	if gmeth := aux.methods[string(key)]; gmeth != nil && 0 < len(gmeth.Combinations) {
-		comb := meth.Combinations[0]
 		// A call in progress on another thread might still be using the
 		// combination so a modified copy replaces it instead of changing
 		// it in place.
@@ -123,4 +137,25 @@ top:
 		aux.updateDefaultCaller()
 	}
 	return args[0]
+}
+
+// holdsDaemons returns true if every daemon of comb is the same daemon in
+// gcomb and comb has at least one.
+func holdsDaemons(gcomb, comb *slip.Combination) bool {
+	same := func(a, b slip.Caller) bool {
+		return a != nil && b != nil && reflect.TypeOf(a) == reflect.TypeOf(b) && reflect.TypeOf(a).Comparable() && a == b
+	}
+	cnt := 0
+	for _, pair := range [][2]slip.Caller{
+		{gcomb.Primary, comb.Primary}, {gcomb.Before, comb.Before}, {gcomb.After, comb.After}, {gcomb.Wrap, comb.Wrap},
+	} {
+		if pair[1] == nil {
+			continue
+		}
+		if !same(pair[0], pair[1]) {
+			return false
+		}
+		cnt++
+	}
+	return 0 < cnt
 }
